@@ -41,7 +41,8 @@ func (d *dumpStruct) HandleDumpStruct(v reflect.Value, isSlice ...bool) *dumpStr
 	// 结构体
 	d.buf.WriteByte('{')
 	maxIndex := tv.NumField()
-	if maxIndex == 0 {
+	if maxIndex == 0 { // 空结构体
+		d.buf.WriteByte('}')
 		return d
 	}
 
